@@ -654,7 +654,6 @@ func lockKeysOf(m map[string]bool) []string {
 	return out
 }
 
-
 // hostRootOf follows the chain of unique callers of an unexported top-level
 // function (not started with go) up to the function it was split from.
 func (c *Ctx) hostRootOf(f *ssa.Function) *ssa.Function {
@@ -688,7 +687,6 @@ func dedupStrings(xs []string) []string {
 	}
 	return out
 }
-
 
 // hostKey: the key of the function f belongs to for who-may-write tables: a
 // private single-caller helper counts as the function it was split from.
